@@ -15,6 +15,10 @@ pub enum Op {
   PostPosting(u32, u32),
   /// post a task that calls abort
   PostAborting(u32),
+  /// post a task that sleeps 1 ms (virtual time)
+  PostSleeping(u32),
+  /// (inside a task only) sleep 1 ms of virtual time
+  SleepNow,
   Abort,
 }
 
@@ -36,7 +40,7 @@ fn task(log: &L, id: u32, inner: Option<Op>, sch: NewThreadScheduler<'static>) -
   let log = log.clone();
   // a plain task holds no handle of the scheduler it is queued on: when the posters are done and
   // drop theirs, the tasks still queued have to run all the same
-  let sch = if inner.is_some() { Some(sch) } else { None };
+  let sch = if matches!(inner, Some(Op::Post(_)) | Some(Op::Abort)) { Some(sch) } else { None };
   move || {
     let i = {
       let mut l = log.lock().unwrap();
@@ -46,6 +50,9 @@ fn task(log: &L, id: u32, inner: Option<Op>, sch: NewThreadScheduler<'static>) -
     rxverif_rt::point();
     if let (Some(op), Some(sch)) = (&inner, &sch) {
       do_op(&log, op, sch);
+    }
+    if let Some(Op::SleepNow) = &inner {
+      thread::sleep(ms(1));
     }
     let st = rxverif_rt::stamp();
     log.lock().unwrap().runs[i].2 = st;
@@ -60,8 +67,10 @@ fn do_op(log: &L, op: &Op, sch: &NewThreadScheduler<'static>) {
       let r = rxverif_rt::stamp();
       log.lock().unwrap().aborts.push((c, r));
     }
-    Op::Post(id) | Op::PostPosting(id, _) | Op::PostAborting(id) => {
+    Op::SleepNow => {}
+    Op::Post(id) | Op::PostPosting(id, _) | Op::PostAborting(id) | Op::PostSleeping(id) => {
       let inner = match op {
+        Op::PostSleeping(_) => Some(Op::SleepNow),
         Op::PostPosting(_, b) => Some(Op::Post(*b)),
         Op::PostAborting(_) => Some(Op::Abort),
         _ => None,
@@ -83,12 +92,12 @@ fn all_tasks(h: &[Vec<Op>]) -> Vec<u32> {
   let mut v = vec![];
   for o in h.iter().flatten() {
     match o {
-      Op::Post(a) | Op::PostAborting(a) => v.push(*a),
+      Op::Post(a) | Op::PostAborting(a) | Op::PostSleeping(a) => v.push(*a),
       Op::PostPosting(a, b) => {
         v.push(*a);
         v.push(*b)
       }
-      Op::Abort => {}
+      Op::Abort | Op::SleepNow => {}
     }
   }
   v
@@ -147,13 +156,12 @@ pub fn history_scn(name: &str, hist: Vec<Vec<Op>>, q: Option<u32>, t: Option<u32
         }
       }
       // FIFO among posts ordered in real time
+      let first_run: std::collections::HashMap<u32, u64> = runs.iter().rev().map(|r| (r.0, r.1)).collect();
       for a in &l.posts {
         for b in &l.posts {
           if a.2 < b.1 {
-            let ra = runs.iter().find(|r| r.0 == a.0);
-            let rb = runs.iter().find(|r| r.0 == b.0);
-            if let (Some(ra), Some(rb)) = (ra, rb) {
-              if ra.1 > rb.1 {
+            if let (Some(ra), Some(rb)) = (first_run.get(&a.0), first_run.get(&b.0)) {
+              if ra > rb {
                 v.push(viol("fifo-violated", format!("post({}) returned before post({}) was called, but {} ran first", a.0, b.0, b.0)));
               }
             }
@@ -242,6 +250,21 @@ pub fn scenarios() -> Vec<Scn> {
     // a burst far longer than any small constant the queue might batch or cap by
     history_scn("c08/M{post x24} burst, no abort", vec![(1..=24).map(Post).collect()], Some(1), Some(2)),
     history_scn("c08/M{post x20, abort} burst", vec![(1..=20).map(Post).chain(std::iter::once(Abort)).collect()], Some(1), Some(2)),
+    // ... and one beyond the usual powers of two a back-log threshold might be set to (seed C09-h: a helper
+    // worker once more than 1024 tasks are pending); default schedule + every single preemption in the thorough tier
+    {
+      // ... the first task asleep while the back-log builds up behind it
+      let mut s = history_scn("c08/M{post a sleeps, post x1100} long burst behind a sleeping task", vec![std::iter::once(PostSleeping(1)).chain((2..=1101).map(Post)).collect()], Some(0), Some(1));
+      s.min_conflicts = 1;
+      s.cfg.max_steps = 200_000;
+      s
+    },
+    {
+      let mut s = history_scn("c08/M{post x1100} long burst, no abort", vec![(1..=1100).map(Post).collect()], Some(0), Some(1));
+      s.min_conflicts = 1; // quick tier: the default schedule only
+      s.cfg.max_steps = 200_000;
+      s
+    },
   ];
   // two scheduler instances: a task running on A's worker posts to B / aborts B (B's worker is idle)
   for abort_b in [false, true] {
@@ -289,6 +312,92 @@ pub fn scenarios() -> Vec<Scn> {
     s.min_conflicts = 1;
     v.push(s);
   }
+  // abort() returns while a task is in progress: a task that only finishes through something the
+  // aborting thread does *after* abort() has returned
+  v.push({
+    let mut s = scn("c08/abort while the task in progress waits for what the aborter does next", "scheduler-queue", Some(2), Some(3), || {
+      let ran: Arc<Mutex<Vec<u32>>> = Arc::new(Mutex::new(vec![]));
+      let r2 = ran.clone();
+      let body: Body = Box::new(move || {
+        let a = schedulers::new_thread_scheduler()();
+        let gate = Arc::new((rxverif_rt::sync::Mutex::new(0u8), rxverif_rt::sync::Condvar::new()));
+        let (g2, r3) = (gate.clone(), r2.clone());
+        a.post(move || {
+          let (m, c) = &*g2;
+          let mut st = m.lock().unwrap();
+          *st = 1; // in progress
+          c.notify_all();
+          while *st < 2 {
+            st = c.wait(st).unwrap();
+          }
+          r3.lock().unwrap().push(1);
+        });
+        let (m, c) = &*gate;
+        {
+          let mut st = m.lock().unwrap();
+          while *st < 1 {
+            st = c.wait(st).unwrap();
+          }
+        }
+        a.abort();
+        *m.lock().unwrap() = 2;
+        c.notify_all();
+      });
+      let check: Check = Box::new(move |e: &ExecEnd| {
+        let mut v = base_violations(e, &[]);
+        let r = ran.lock().unwrap().clone();
+        if r != vec![1] {
+          v.push(viol("task-in-progress-not-finished", format!("the task in progress when abort was called did not run to its end: {:?}; {}", r, thread_summary(e))));
+        }
+        let live = unfinished_threads(e);
+        if !live.is_empty() {
+          v.push(viol("worker-not-exited-after-abort", format!("threads {:?} have not exited although the task in progress has been released; {}", live, thread_summary(e))));
+        }
+        Verdict { outcome: format!("{:?} | {}", r, thread_summary(e)), violations: v }
+      });
+      (body, check)
+    });
+    s.min_conflicts = 1;
+    s
+  });
+  // two schedulers whose tasks in progress abort each other
+  v.push({
+    let mut s = scn("c08/two schedulers: the tasks in progress abort each other", "scheduler-queue", Some(2), Some(3), || {
+      let ran: Arc<Mutex<Vec<u32>>> = Arc::new(Mutex::new(vec![]));
+      let r2 = ran.clone();
+      let body: Body = Box::new(move || {
+        let a = schedulers::new_thread_scheduler()();
+        let b = schedulers::new_thread_scheduler()();
+        let (b2, r3) = (b.clone(), r2.clone());
+        a.post(move || {
+          b2.abort();
+          r3.lock().unwrap().push(1);
+        });
+        let (a2, r4) = (a.clone(), r2.clone());
+        b.post(move || {
+          a2.abort();
+          r4.lock().unwrap().push(2);
+        });
+        thread::sleep(ms(5));
+        a.abort();
+        b.abort();
+      });
+      let check: Check = Box::new(move |e: &ExecEnd| {
+        let mut v = base_violations(e, &[]);
+        let mut r = ran.lock().unwrap().clone();
+        r.sort();
+        // (either task may have been discarded by the other's abort before it started; one that started ends)
+        let live = unfinished_threads(e);
+        if !live.is_empty() {
+          v.push(viol("worker-not-exited-after-abort", format!("threads {:?} have not exited although both schedulers were aborted; {}", live, thread_summary(e))));
+        }
+        Verdict { outcome: format!("{:?} | {}", r, thread_summary(e)), violations: v }
+      });
+      (body, check)
+    });
+    s.min_conflicts = 1;
+    s
+  });
   // the default scheduler runs the task synchronously inside post
   v.push({
     let mut s = scn("c08/default scheduler is synchronous", "default-scheduler", Some(1), Some(1), || {
